@@ -41,6 +41,9 @@ checks = {
  "C08": ("model_checking", "exhaustive one-step pairs (current content x every change of <=3 keys over a 4-value menu around the sender's level, 14 keys, 3 sender kinds, 16 versions) and explicit-state BFS over histories of accepted power-level events by three users, all through the real Allowed; oracle = invariant on effective levels computed from the two contents (independent of the reference rules)",
          "Every accepted event in the enumerated space is checked against a no-escalation invariant computed directly from the old and new contents; histories are explored breadth-first with the content as canonical state.",
          "event-type entries judged entry-against-entry as the specification does; users without an entry follow users_default", "4/C08"),
+ "C09": ("model_checking", "explicit-state search over all sequences (depth 3 quick / 4 thorough) of (event, auth state) pairs through ONE reused allower context (in-package bridge), each step compared with a fresh Allowed; plus, for every cell of the auth rule space, every insertion order of the auth events, removal of un-needed events, only-needed state, added unrelated state, repetition, and the auth events AddAuthEvents selects",
+         "Every history through the reused checker up to the depth bound and every presentation of every cell is executed on the real code; the oracle is metamorphic (verdict must equal the fresh / baseline verdict).",
+         "the reuse alphabet (18-19 pairs) fixes which cached fields can interact", "4/C09"),
 }
 pending = {}
 props = [json.loads(l) for l in open('/verif/properties.jsonl')]
